@@ -1876,3 +1876,25 @@ Lemma setup_rules_are_declared absroot cs :
   (forall rs, parse_rules absroot cs = Some rs -> rs = map (eff_rule absroot) cs) /\
   (forallb preset_known cs = true -> exists rs, parse_rules absroot cs = Some rs).
 Proof. split; [apply parse_rules_are_declared | apply parse_rules_accepts]. Qed.
+
+(* ---------- sequences of requests (round 5, seeded change m9: pooled record writers handed out without Reset) ---------- *)
+
+Lemma request_roundtrip_in_any_sequence :
+  forall reqs i ps order body w,
+  nth_error reqs i = Some (order, body) ->
+  (forall kv, In kv ps -> fits kv = true) ->
+  Permutation ps order ->
+  nth_error (sequence_wires reqs) i = Some (Ok w) ->
+  exists got, responder_receive w = Some (1, 0, got, body_bytes body) /\ Permutation ps got.
+Proof.
+  intros reqs i ps order body w Hi Hfit Hperm Hw.
+  unfold sequence_wires in Hw. rewrite (map_nth_error _ _ _ Hi) in Hw. cbn [fst snd] in Hw.
+  injection Hw as Hw. exact (request_roundtrip_any_order ps order body w Hfit Hperm Hw).
+Qed.
+
+Lemma sequence_wires_pointwise : forall before q after,
+  nth_error (sequence_wires (before ++ q :: after)) (length before) = Some (request_wire (fst q) (snd q)).
+Proof.
+  intros before q after. unfold sequence_wires. rewrite map_app. cbn [map].
+  rewrite nth_error_app2; rewrite map_length; [|apply le_n]. rewrite PeanoNat.Nat.sub_diag. reflexivity.
+Qed.
